@@ -49,11 +49,66 @@ def units(tier):
     us = [{"specs": [s.to_json() for s in ch], "seed": seed() * 1000 + i, "maxtok": 4 if tier == "quick" else 5}
           for i, ch in enumerate(chunks(specs, 160))]
     us.append({"kind": "custom-ws", "seed": seed()})
+    us.append({"kind": "slash", "seed": seed(), "n": 60 if tier == "quick" else 1500})
     return us[::-1]       # the seeded random grammars (slowest GLR parses) first
 
 
+# comments whose opener begins like a terminal of the language: layout is skipped before tokens are looked for
+SLASH_GRAMMAR = ('E: E "/" E {left} | "n" | "(" E ")";\n'
+                 'LAYOUT: LayoutItem | LAYOUT LayoutItem | EMPTY;\nLayoutItem: WS | LineComment | BlockComment;\n'
+                 'terminals\nWS: /\\s+/;\nLineComment: /\\/\\/[^\\n]*/;\nBlockComment: /\\/\\*[^*]*\\*\\//;\n')
+SLASH_SENTENCES = [["n"], ["n", "/", "n"], ["n", "/", "n", "/", "n"], ["(", "n", ")", "/", "n"],
+                   ["n", "/", "(", "n", "/", "n", ")"], ["(", "(", "n", ")", ")"]]
+SLASH_FILLERS = ["", " ", "// c\n", "/* c */", " // c\n", "/* x */ ", "\n", "/**/", "// /\n"]
+
+
+def run_slash(u, res):
+    st = res["stats"]
+    rng = random.Random(u["seed"])
+    g = Grammar.from_string(SLASH_GRAMMAR)
+
+    def shape(n):
+        return n.value if n.is_term() else [shape(c) for c in n]
+
+    for kind in ("LR", "GLR"):
+        p = Parser(g, build_tree=True) if kind == "LR" else GLRParser(g)
+
+        def run(text):
+            try:
+                with budget(2):
+                    r = p.parse(text)
+                return ("ok", shape(r if kind == "LR" else r[0]), 1 if kind == "LR" else r.solutions)
+            except parglare.exceptions.ParglareError as e:
+                return ("error", type(e).__name__)
+        for toks in SLASH_SENTENCES:
+            want = run(" ".join(toks))
+            variants = []
+            gaps = len(toks) + 1
+            for gi in range(gaps):
+                for f in SLASH_FILLERS:
+                    variants.append([" " if k != gi else f for k in range(gaps)])
+            for _ in range(u["n"]):
+                variants.append([rng.choice(SLASH_FILLERS) for _ in range(gaps)])
+            for fills in variants:
+                # a comment opener directly after the "/" token would change the token boundary
+                ok = all(not (fills[k + 1].startswith("/") and toks[k] == "/") for k in range(len(toks)))
+                if not ok:
+                    continue
+                text = fills[0] + "".join(t + fills[k + 1] for k, t in enumerate(toks))
+                case = {"grammar": SLASH_GRAMMAR, "parser": kind, "input": text, "tokens": toks}
+                got = run(text)
+                res["evaluations"] += 1
+                st["pairs"] += 1
+                res["nontrivial"].append(h16(case))
+                if got != want:
+                    res["violations"].append({"kind": "layout-changes-the-parse", "case": case,
+                                              "observed": str(got)[:200], "expected": str(want)[:200]})
+    return res
+
+
 # ws parameters made of characters that are special elsewhere (regex classes, escapes, ranges)
-CUSTOM_WS = [" \t\\\n", " -_", "_- ", "^ ", " ^", "] ", " [", "\\", ".", " .*+?", "a-c ", "\t|", " \r\n\t\f\v", "()", "{}$"]
+DEFAULT_WS = object()      # construct without a ws argument: the documented default is '\n\r\t '
+CUSTOM_WS = [DEFAULT_WS, " \t\\\n", " -_", "_- ", "^ ", " ^", "] ", " [", "\\", ".", " .*+?", "a-c ", "\t|", " \r\n\t\f\v", "()", "{}$"]
 CUSTOM_GRAMMARS = ['S: "x" S | "y";', 'S: "(" S ")" | "x";', 'S: S "+" S | "x" | "yy";', 'S: "ab" "b"* "a"?;']
 
 
@@ -62,18 +117,26 @@ def run_custom_ws(u, res):
     the model's for every ws string, and sentences stay sentences when ws characters are put between tokens."""
     st = res["stats"]
     rng = random.Random(u["seed"])
-    alphabet = "xy()+ab \t\n\\-_^].*|[?{}$c\r"
+    # every special character, and white space that is not in the default ws (form feed, vertical tab,
+    # file separator, next line, no-break space, line separator)
+    alphabet = "xy()+ab \t\n\\-_^].*|[?{}$c\r\x0c\x0b\x1c\x85\u00a0\u2028"
     for gtxt in CUSTOM_GRAMMARS:
         g = Grammar.from_string(gtxt)
         num = Numbering(g)
         toks = sorted({t.recognizer.value for t in g.terminals.values() if hasattr(t.recognizer, "value")})
         for ws in CUSTOM_WS:
+            default = ws is DEFAULT_WS
+            if default:
+                ws = "\n\r\t "
             fill = [c for c in ws if c not in "".join(toks)]
             if not fill:
                 continue
             for kind in ("LR", "GLR"):
                 try:
-                    p = Parser(g, ws=ws, build_tree=True) if kind == "LR" else GLRParser(g, ws=ws)
+                    if default:
+                        p = Parser(g, build_tree=True) if kind == "LR" else GLRParser(g)
+                    else:
+                        p = Parser(g, ws=ws, build_tree=True) if kind == "LR" else GLRParser(g, ws=ws)
                 except (SRConflicts, RRConflicts):
                     continue
                 except Exception as e:
@@ -84,7 +147,7 @@ def run_custom_ws(u, res):
                 # skip tables on texts over an alphabet containing every special character
                 b = Batch()
                 checks = []
-                for k in range(12):
+                for k in range(40 if default else 12):
                     text = "".join(rng.choice(alphabet + ws) for _ in range(rng.randint(0, 9)))
                     q = b.add("skipws", len(ws), [ord(c) for c in ws], len(text), [ord(c) for c in text])
                     checks.append((text, q, skip_table(p, text)))
@@ -197,6 +260,8 @@ def run_unit(u):
     st = res["stats"]
     if u.get("kind") == "custom-ws":
         return run_custom_ws(u, res)
+    if u.get("kind") == "slash":
+        return run_slash(u, res)
     for sj in u["specs"]:
         spec = gen.GSpec.from_json(sj)
         base = list(gen.token_strings(spec, u["maxtok"]))[:60]
